@@ -50,8 +50,8 @@ def post_convert_coord(line, ref, result):
 def setup(ctx):
     from gaftools.cli import index
     from gaftools import utils
-    M.attach(index, "convert_coord", post=post_convert_coord)
-    M.attach(utils, "search_intervals", post=CC.post_search_intervals)
+    M.attach(index, "convert_coord", post=post_convert_coord, optional=True)
+    M.attach(utils, "search_intervals", post=CC.post_search_intervals, optional=True)
 
 
 def run_case(ctx, rng, index, casedir):
@@ -171,4 +171,4 @@ def run_case(ctx, rng, index, casedir):
     return {"sig": stable_hash([w.lines, w.mode, w.layout]), "nontrivial": nontrivial, "evals": max(evals, 1),
             "situations": dict(sit), "violations": viol, "outcomes": outcomes,
             "sample": {"stable": w.stable, "mode": w.mode, "layout": w.layout, "blocks": w.blocks,
-                       "records": len(w.lines), "first": w.lines[0][:160]}}
+                       "records": len(w.lines), "first": (w.lines[0][:160] if w.lines else None)}}
